@@ -146,8 +146,8 @@ def run_case(case):
 
 
 def _cases(tier, compiled=False):
-    Ls = range(1, 9) if tier == "quick" else range(1, 11)
-    widths = range(1, 5) if tier == "quick" else range(1, 6)
+    Ls = range(1, 9) if tier == "quick" else range(1, 14)
+    widths = range(1, 5) if tier == "quick" else range(1, 7)
     pads = [(0, 0), (1, 0), (2, -1)] if tier == "quick" else [(0, 0), (1, 0), (1, -1), (2, 0), (2, -1)]
     if compiled:
         Ls, widths, pads = (5,), (3,), [(1, -1)]
